@@ -362,3 +362,78 @@ def rng_independence(ctx, world):
             else:
                 ctx.ob("A18.rng", inst, True, loc_of(mod, x))
     ctx.floor("A18.rng random draws found in autograd/", n, 1)
+
+
+def complex_probes(ctx, world):
+    """A18.probe - check_vjp / check_jvp / check_equivalent test a rule along RANDOM directions drawn by the argument's
+    and the output's vector space.  For a complex space the directions must range over all 2n real degrees of freedom:
+    the real and the imaginary part come from independent draws.  A probe built from ONE draw (`(1+1j) * noise`,
+    `noise * ones()`) has a fixed phase: every defect in the imaginary part of a holomorphic factor, or of real size in
+    the anti-linear part, is orthogonal to all probes and accepted with probability 1."""
+    from ..model import norm_text
+    from ..regs import class_lookup, class_mro
+
+    ctx.describe("A18.probe", "the random probe of the complex array space (ComplexArrayVSpace.randn) is built from at least two independent draws (two call sites of a numpy.random draw, of a helper that draws, or of another space's randn; or one site inside a loop / comprehension, or one draw with an extra leading axis of length 2) and contains an imaginary unit: real and imaginary parts vary independently")
+    m = world.repo.mod("autograd.numpy.numpy_vspaces")
+    cx = world.repo.resolve(m, "ComplexArrayVSpace")
+    if cx is None or cx.kind != "repo":
+        raise AnalysisError("numpy_vspaces.ComplexArrayVSpace vanished")
+    fn = next((st for st in cx.node.body if isinstance(st, ast.FunctionDef) and st.name == "randn"), None)
+    loc = loc_of(m, fn if fn is not None else cx.node)
+    if fn is None:
+        ctx.fail("A18.probe", "ComplexArrayVSpace.randn", "ComplexArrayVSpace.randn|inherited", loc, "ComplexArrayVSpace does not define randn: it inherits the real space's single draw (cast to the complex dtype, imaginary part zero)", "check_grads of a rule with complex arguments whose defect is in the imaginary direction")
+        return
+    DRAW_NAMES = ("randn", "standard_normal", "normal", "rand", "uniform", "random", "random_sample")
+
+    def callee_def(x, mod):
+        """the repo function a call runs: self.helper(..) through the class and its bases, or a module-level def"""
+        f = x.func
+        if isinstance(f, ast.Attribute) and isinstance(f.value, ast.Name) and f.value.id in ("self", "cls"):
+            k, node = class_lookup(world.repo, cx, f.attr)
+            if isinstance(node, ast.FunctionDef):
+                return node, k.mod
+        if isinstance(f, ast.Attribute) and isinstance(f.value, ast.Call) and isinstance(f.value.func, ast.Name) and f.value.func.id == "super":
+            for k in class_mro(world.repo, cx)[1:]:
+                if k.kind == "repo":
+                    for st in k.node.body:
+                        if isinstance(st, ast.FunctionDef) and st.name == f.attr:
+                            return st, k.mod
+        if isinstance(f, (ast.Name, ast.Attribute)):
+            r = world.repo.resolve_expr(mod, f)
+            if r is not None and r.kind == "repo" and isinstance(getattr(r, "node", None), ast.FunctionDef):
+                return r.node, r.mod
+        return None, None
+
+    def is_draw(x, mod, depth=0):
+        if not isinstance(x, ast.Call):
+            return False
+        r = world.repo.resolve_expr(mod, x.func) if isinstance(x.func, (ast.Name, ast.Attribute)) else None
+        q = getattr(r, "qual", None) or ""
+        if q.startswith("numpy.random.") or ".numpy_wrapper.random." in q:
+            return True
+        d, dm = callee_def(x, mod)
+        if d is not None and d is not fn and depth < 4:
+            return any(is_draw(y, dm, depth + 1) for y in ast.walk(d))
+        return d is None and isinstance(x.func, ast.Attribute) and x.func.attr in DRAW_NAMES
+
+    draws, many = [], False
+    for x in ast.walk(fn):
+        if not is_draw(x, m):
+            continue
+        draws.append(x)
+        p = getattr(x, "_parent", None)
+        while p is not None and p is not fn:
+            if isinstance(p, (ast.For, ast.While, ast.ListComp, ast.GeneratorExp, ast.SetComp, ast.DictComp)):
+                many = True
+            p = getattr(p, "_parent", None)
+        consts = [a.value for a in x.args if isinstance(a, ast.Constant)] + [e.value for k in x.keywords if isinstance(k.value, (ast.Tuple, ast.List)) for e in k.value.elts if isinstance(e, ast.Constant)] + [e.value for a in x.args if isinstance(a, (ast.Tuple, ast.List)) for e in a.elts if isinstance(e, ast.Constant)]
+        if any(c == 2 and type(c) is int for c in consts):
+            many = True  # one draw with an extra axis of length 2: both parts in one call
+    has_j = any(isinstance(n, ast.Constant) and isinstance(n.value, complex) and n.value.imag != 0 for n in ast.walk(fn)) or any(isinstance(n, ast.Call) and isinstance(n.func, ast.Name) and n.func.id == "complex" for n in ast.walk(fn))
+    inst = "ComplexArrayVSpace.randn"
+    if (len(draws) >= 2 or many) and has_j:
+        ctx.ob("A18.probe", inst, True, loc, sample=f"{len(draws)} draw site(s){' in a loop / with an extra axis' if many else ''}, imaginary unit present")
+    elif not has_j:
+        ctx.fail("A18.probe", inst, "ComplexArrayVSpace.randn|no-imaginary-unit", loc, "the complex probe contains no imaginary unit: its imaginary part is zero (or a copy of the real part)", "check_grads of a rule with complex arguments whose defect is in the imaginary direction")
+    else:
+        ctx.fail("A18.probe", inst, "ComplexArrayVSpace.randn|single-draw", loc, f"the complex probe is built from a single random draw (`{norm_text(draws[0])[:50] if draws else norm_text(fn.body[-1])[:50]}`): real and imaginary part are proportional, every probe has the same phase", "check_grads of f(z) = (2+3j) z with the rule g (2+5j): the defect 2j is orthogonal to every probe (1+1j) t")
